@@ -751,3 +751,95 @@ func (c *Ctx) journalReset(rule string) {
 	}
 	r.Floor(rule, "journal reset sites (Finalise / ClearChangerAndRefund)", n, 3)
 }
+
+const freshUndoText = "an undo leaves nothing behind: SetBalance / SetNonce / SetCodeAndHash create the account's dirty copy (dirtyAccount) on first use; a writer that can take dirtyAccount from nil to a fresh copy records that fact in the change it journals (a field fed from dirtyAccount == nil), and the revert method of that change can drop dirtyAccount again (stores nil into it). Otherwise a reverted first write - a FAILED transaction touching an address that has no record yet - leaves an empty record {0, 0, nil} dirty: it is journaled, hashed into the state root and committed, and whether the address object was loaded before (by an earlier transaction, or by a balance query on that node) decides the root (shared by C07 R07.10, C13 R13.8 and C01 R01.8)."
+
+// freshUndo emits the shared rule under the given id.
+func (c *Ctx) freshUndo(rule string) {
+	r := c.R
+	n := 0
+	isNilTestOfDirty := func(v ssa.Value) bool {
+		return core.Mentions(v, func(w ssa.Value) bool {
+			bo, ok := w.(*ssa.BinOp)
+			if !ok || bo.Op != token.EQL && bo.Op != token.NEQ {
+				return false
+			}
+			for _, side := range [][2]ssa.Value{{bo.X, bo.Y}, {bo.Y, bo.X}} {
+				if !core.IsNilConst(side[1]) {
+					continue
+				}
+				if _, f, _, ok := core.FieldOf(side[0]); ok && f == "dirtyAccount" {
+					return true
+				}
+			}
+			return false
+		})
+	}
+	dropsDirty := func(fn *ssa.Function) bool {
+		for _, rf := range c.regionOf(fn, 1) {
+			for _, b := range rf.fn.Blocks {
+				for _, in := range b.Instrs {
+					st, ok := in.(*ssa.Store)
+					if !ok {
+						continue
+					}
+					if _, f, _, ok := core.FieldOf(st.Addr); ok && f == "dirtyAccount" && core.IsNilConst(st.Val) {
+						return true
+					}
+				}
+			}
+		}
+		return false
+	}
+	for _, fn := range c.P.ModuleFuncs(true) {
+		if core.PkgOf(fn) != ledgerPkg || fn.Parent() != nil || len(fn.Blocks) == 0 {
+			continue
+		}
+		// a journaling writer that lazily allocates dirtyAccount
+		var app ssa.CallInstruction
+		for _, call := range core.Calls(fn) {
+			if core.CalleeName(call) == "(*internal/ledger.stateChanger).append" {
+				app = call
+			}
+		}
+		allocs := false
+		for _, b := range fn.Blocks {
+			for _, in := range b.Instrs {
+				st, ok := in.(*ssa.Store)
+				if !ok {
+					continue
+				}
+				if _, f, _, ok := core.FieldOf(st.Addr); ok && f == "dirtyAccount" && !core.IsNilConst(st.Val) {
+					if cc, isCall := core.Strip(st.Val).(*ssa.Call); isCall && strings.HasSuffix(core.CalleeName(cc), "CopyOrNewIfEmpty") {
+						allocs = true
+					}
+				}
+			}
+		}
+		if app == nil || !allocs {
+			continue
+		}
+		n++
+		args := app.Common().Args
+		chg := args[len(args)-1]
+		key := shortFn(fn) + ": the journaled change records whether the write created dirtyAccount"
+		okFlag := isNilTestOfDirty(chg)
+		// the revert method of the change type
+		okDrop := false
+		tn := ""
+		if mi, ok := chg.(*ssa.MakeInterface); ok {
+			chg = mi.X
+		}
+		if named, ok := chg.Type().(*types.Named); ok {
+			tn = named.Obj().Name()
+		}
+		if tn != "" {
+			if rv := c.P.Fn("internal/ledger.(" + tn + ").revert"); rv != nil {
+				okDrop = dropsDirty(rv)
+			}
+		}
+		r.Check(okFlag && okDrop, rule, key, c.P.Pos(app.Pos()), "the change carries dirtyAccount == nil and its revert can drop dirtyAccount",
+			"the writer creates the account's dirty copy on first use but its undo ("+tn+".revert) goes through the lazily allocating setter and never drops the copy: after a reverted first write to an address without a record, an empty record stays dirty, is hashed into the state root and committed - an effect of a FAILED transaction that depends on whether the address object had been loaded before")
+	}
+	r.Floor(rule, "journaling writers that create dirtyAccount on first use", n, 3)
+}
